@@ -69,7 +69,11 @@ type decWalker struct {
 	effects []string
 	probs   []string
 	alloc32 []string // allocations sized by a raw 64-bit length whose guards are on its int conversion
+	payloadVars map[types.Object]bool // locals bound to the record's payload slice
 	readers  map[types.Object]bool // closures of the prologue recognised as the shared varint reader
+	lenReaders map[types.Object]string // closures recognised as the shared length-prefix reader -> term of the length
+	elemClosures map[types.Object]*ast.FuncLit // arm-local `func() error` closures: a call stands for the body
+	inElemClosure bool
 	inReader bool                  // the reader closure's own body is being matched
 }
 
@@ -103,6 +107,10 @@ func (w *decWalker) isErrRet(b *ast.BlockStmt) bool {
 		return false
 	}
 	rs, ok := b.List[0].(*ast.ReturnStmt)
+	if ok && w.inElemClosure {
+		// inside an arm-local closure `func() error` the error is the only result
+		return len(rs.Results) == 1 && types.ExprString(rs.Results[0]) != "nil"
+	}
 	if !ok || len(rs.Results) != 2 {
 		return false
 	}
@@ -147,6 +155,10 @@ func (w *decWalker) setField(l, v string) {
 
 // payload reports whether x is dAtA[idx:post] for the current record, with the cursor at the payload start.
 func (w *decWalker) payload(x ast.Expr) bool {
+	// a local that was bound to the payload slice (`p := dAtA[iNdEx:postIndex]`) denotes it from then on
+	if id, isID := ast.Unparen(x).(*ast.Ident); isID && w.payloadVars[w.info.ObjectOf(id)] {
+		return true
+	}
 	se, ok := ast.Unparen(x).(*ast.SliceExpr)
 	if !ok || se.Max != nil {
 		return false
@@ -168,6 +180,9 @@ func (w *decWalker) term(x ast.Expr) (string, error) {
 		}
 		if _, isNil := o.(*types.Nil); isNil {
 			return "nil", nil
+		}
+		if w.payloadVars[o] {
+			return "", fmt.Errorf("the input slice held by %s is used as a value (aliases the caller's buffer)", t.Name)
 		}
 		return "", und("value of %s is not tracked", t.Name)
 	case *ast.SelectorExpr:
@@ -335,6 +350,10 @@ func (w *decWalker) term(x ast.Expr) (string, error) {
 				}
 				return "make(" + tname(info.TypeOf(t.Args[0])) + ")", nil
 			case "len":
+				// len(p) of the payload slice is the payload length
+				if len(t.Args) == 1 && w.payload(t.Args[0]) {
+					return "len(bytes)", nil
+				}
 				a, err := w.term(t.Args[0])
 				if err != nil {
 					return "", err
@@ -610,6 +629,109 @@ func (w *decWalker) readerClosure(fl *ast.FuncLit) bool {
 	return ok && w.is(acc, v) && basicKind(T) == types.Uint64
 }
 
+// lenReaderClosure: func() (int, error) whose body reads a length varint into an int, applies the three guards
+// (length < 0, end < 0, end > l) and returns the payload end. The body is interpreted by the arm walker itself.
+func (w *decWalker) lenReaderClosure(fl *ast.FuncLit) (string, bool) {
+	info := w.info
+	if (fl.Type.Params != nil && len(fl.Type.Params.List) != 0) || fl.Type.Results == nil || len(fl.Type.Results.List) != 2 {
+		return "", false
+	}
+	if basicKind(info.TypeOf(fl.Type.Results.List[0].Type)) != types.Int || info.TypeOf(fl.Type.Results.List[1].Type).String() != "error" {
+		return "", false
+	}
+	body := fl.Body.List
+	if len(body) < 2 {
+		return "", false
+	}
+	ret, ok := body[len(body)-1].(*ast.ReturnStmt)
+	if !ok || len(ret.Results) != 2 || types.ExprString(ret.Results[1]) != "nil" {
+		return "", false
+	}
+	sub := &decWalker{m: w.m, info: w.info, msgV: w.msgV, buf: w.buf, lVar: w.lVar, idx: w.idx, opts: w.opts, readers: w.readers}
+	sub.reset()
+	if err := sub.stmts(body[:len(body)-1]); err != nil || len(sub.probs) > 0 || sub.post == nil || !sub.atStart || len(sub.touched) > 0 || len(sub.effects) > 0 {
+		return "", false
+	}
+	if !sub.is(ret.Results[0], sub.post) {
+		return "", false
+	}
+	return sub.lenTerm, true
+}
+
+// lenReaderCall handles `post, err := readLen()` followed by `if err != nil { return …, err }`.
+func (w *decWalker) lenReaderCall(list []ast.Stmt, i int) (int, bool) {
+	info := w.info
+	as, ok := list[i].(*ast.AssignStmt)
+	if !ok || as.Tok != token.DEFINE || len(as.Lhs) != 2 || len(as.Rhs) != 1 || i+1 >= len(list) {
+		return 0, false
+	}
+	call, ok := ast.Unparen(as.Rhs[0]).(*ast.CallExpr)
+	if !ok || len(call.Args) != 0 {
+		return 0, false
+	}
+	fid, ok := ast.Unparen(call.Fun).(*ast.Ident)
+	if !ok {
+		return 0, false
+	}
+	lt, isReader := w.lenReaders[info.ObjectOf(fid)]
+	if !isReader {
+		return 0, false
+	}
+	pid, _ := as.Lhs[0].(*ast.Ident)
+	eid, _ := as.Lhs[1].(*ast.Ident)
+	if pid == nil || eid == nil || pid.Name == "_" || eid.Name == "_" {
+		return 0, false
+	}
+	chk, ok := list[i+1].(*ast.IfStmt)
+	if !ok || chk.Init != nil || chk.Else != nil || !w.isErrRet(chk.Body) || types.ExprString(chk.Cond) != eid.Name+" != nil" {
+		return 0, false
+	}
+	if rs := chk.Body.List[0].(*ast.ReturnStmt); types.ExprString(rs.Results[1]) != eid.Name {
+		return 0, false
+	}
+	w.post = info.ObjectOf(pid)
+	w.lenTerm = lt
+	w.atStart = true
+	return 2, true
+}
+
+// elemClosureCall: `if err := name(); err != nil { return …, err }` for an arm-local closure.
+func (w *decWalker) elemClosureCall(s ast.Stmt) *ast.FuncLit {
+	is, ok := s.(*ast.IfStmt)
+	if !ok || is.Init == nil || is.Else != nil || len(w.elemClosures) == 0 {
+		return nil
+	}
+	as, ok := is.Init.(*ast.AssignStmt)
+	if !ok || as.Tok != token.DEFINE || len(as.Lhs) != 1 || len(as.Rhs) != 1 {
+		return nil
+	}
+	call, ok := ast.Unparen(as.Rhs[0]).(*ast.CallExpr)
+	if !ok || len(call.Args) != 0 {
+		return nil
+	}
+	fid, ok := ast.Unparen(call.Fun).(*ast.Ident)
+	if !ok {
+		return nil
+	}
+	fl := w.elemClosures[w.info.ObjectOf(fid)]
+	eid, _ := as.Lhs[0].(*ast.Ident)
+	if fl == nil || eid == nil || types.ExprString(is.Cond) != eid.Name+" != nil" {
+		return nil
+	}
+	// the caller hands the closure's error on (two results, the error last)
+	saved := w.inElemClosure
+	w.inElemClosure = false
+	okRet := w.isErrRet(is.Body)
+	w.inElemClosure = saved
+	if !okRet {
+		return nil
+	}
+	if rs := is.Body.List[0].(*ast.ReturnStmt); types.ExprString(rs.Results[1]) != eid.Name {
+		return nil
+	}
+	return fl
+}
+
 // readerCall handles `u, err := readVarint()` followed by `if err != nil { return …, err }`: u holds one varint
 // read at the cursor (errors: overflow and truncated input, as in the inline loop). Returns the statements consumed.
 func (w *decWalker) readerCall(list []ast.Stmt, i int) (int, bool) {
@@ -727,6 +849,20 @@ func (w *decWalker) stmts(list []ast.Stmt) error {
 		s := list[i]
 		if n, ok := w.readerCall(list, i); ok {
 			i += n - 1
+			continue
+		}
+		if n, ok := w.lenReaderCall(list, i); ok {
+			i += n - 1
+			continue
+		}
+		if fl := w.elemClosureCall(s); fl != nil {
+			saved := w.inElemClosure
+			w.inElemClosure = true
+			err := w.stmts(fl.Body.List[:len(fl.Body.List)-1])
+			w.inElemClosure = saved
+			if err != nil {
+				return err
+			}
 			continue
 		}
 		switch t := s.(type) {
@@ -1204,6 +1340,16 @@ func (w *decWalker) assign(t *ast.AssignStmt, list []ast.Stmt, i *int) error {
 	if t.Tok != token.ASSIGN && t.Tok != token.DEFINE {
 		return und("assignment operator in %s", nodeStr(t))
 	}
+	// p := dAtA[iNdEx:postIndex]
+	if t.Tok == token.DEFINE && obj != nil && len(t.Rhs) == 1 {
+		if _, isSlice := ast.Unparen(t.Rhs[0]).(*ast.SliceExpr); isSlice && w.payload(t.Rhs[0]) {
+			if w.payloadVars == nil {
+				w.payloadVars = map[types.Object]bool{}
+			}
+			w.payloadVars[obj] = true
+			return nil
+		}
+	}
 	// capacity hints: elementCount = packedLen / 8 | count | packedLen
 	if obj != nil && basicKind(obj.Type()) == types.Int {
 		rhs := ast.Unparen(t.Rhs[0])
@@ -1630,6 +1776,18 @@ func extractUnmarshal(m *model.Msg) (*decModel, error) {
 					w.readers[info.ObjectOf(id)] = true
 					continue
 				}
+				// readLen := func() (int, error) { <length varint>; <the three guards>; return postIndex, nil }: one reader of
+				// length prefixes shared by every length-delimited arm; a call leaves the cursor at the payload start and
+				// returns the guarded payload end
+				if fl, ok := rhs.(*ast.FuncLit); ok && w.idx != nil && w.buf != nil && w.lVar != nil {
+					if lt, ok := w.lenReaderClosure(fl); ok {
+						if w.lenReaders == nil {
+							w.lenReaders = map[types.Object]string{}
+						}
+						w.lenReaders[info.ObjectOf(id)] = lt
+						continue
+					}
+				}
 			}
 			if t.Tok == token.ASSIGN {
 				if id, ok := t.Lhs[0].(*ast.Ident); ok && id.Name == "_" {
@@ -1639,6 +1797,17 @@ func extractUnmarshal(m *model.Msg) (*decModel, error) {
 		case *ast.IfStmt:
 			if be, ok := t.Cond.(*ast.BinaryExpr); ok && be.Op == token.EQL && w.is(be.X, w.msgV) && w.opts == nil {
 				continue
+			}
+			// if err := runtime.<Helper>(input); err != nil { return …, err } with a helper that is the depth check
+			if as, ok := t.Init.(*ast.AssignStmt); ok && as.Tok == token.DEFINE && len(as.Lhs) == 1 && len(as.Rhs) == 1 && t.Else == nil && w.opts == nil && w.isErrRet(t.Body) {
+				if call, ok := ast.Unparen(as.Rhs[0]).(*ast.CallExpr); ok && len(call.Args) == 1 && w.is(call.Args[0], inputVar) && depthHelper(info, call) {
+					eid, _ := as.Lhs[0].(*ast.Ident)
+					rs := t.Body.List[0].(*ast.ReturnStmt)
+					if eid != nil && types.ExprString(t.Cond) == eid.Name+" != nil" && types.ExprString(rs.Results[1]) == eid.Name {
+						dm.HasDepth = true
+						continue
+					}
+				}
 			}
 			// if input.Depth <= 0 { return …, err }
 			if be, ok := t.Cond.(*ast.BinaryExpr); ok && be.Op == token.LEQ && isZero(info, be.Y) && w.isErrRet(t.Body) && t.Else == nil {
@@ -1790,6 +1959,28 @@ func (w *decWalker) arm(body []ast.Stmt, arm *decArm) error {
 	info := w.info
 	if len(body) == 0 {
 		return und("empty case")
+	}
+	// arm-local closures `name := func() error { …; return nil }` (an element decoder shared by the packed and the
+	// unpacked alternative): each call `if err := name(); err != nil { return …, err }` is interpreted as the body
+	for len(body) > 1 {
+		as, isAs := body[0].(*ast.AssignStmt)
+		if !isAs || as.Tok != token.DEFINE || len(as.Lhs) != 1 || len(as.Rhs) != 1 {
+			break
+		}
+		fl, isLit := as.Rhs[0].(*ast.FuncLit)
+		if !isLit || (fl.Type.Params != nil && len(fl.Type.Params.List) != 0) || fl.Type.Results == nil || len(fl.Type.Results.List) != 1 ||
+			info.TypeOf(fl.Type.Results.List[0].Type).String() != "error" || len(fl.Body.List) == 0 {
+			break
+		}
+		last, isRet := fl.Body.List[len(fl.Body.List)-1].(*ast.ReturnStmt)
+		if !isRet || len(last.Results) != 1 || types.ExprString(last.Results[0]) != "nil" {
+			break
+		}
+		if w.elemClosures == nil {
+			w.elemClosures = map[types.Object]*ast.FuncLit{}
+		}
+		w.elemClosures[info.ObjectOf(as.Lhs[0].(*ast.Ident))] = fl
+		body = body[1:]
 	}
 	first, ok := body[0].(*ast.IfStmt)
 	if !ok {
@@ -1949,8 +2140,21 @@ func (w *decWalker) unknownArm(cc *ast.CaseClause) *unkSummary {
 		u.Problems = append(u.Problems, fmt.Sprintf(f, a...))
 		return u
 	}
+	// optional local for the record end: end := iNdEx + skippy (after the Skip error check)
+	var endObj types.Object
+	if len(b) == 8 {
+		if as, ok := b[3].(*ast.AssignStmt); ok && as.Tok == token.DEFINE && len(as.Lhs) == 1 && len(as.Rhs) == 1 {
+			if a1x, ok := b[1].(*ast.AssignStmt); ok && len(a1x.Lhs) == 2 {
+				skx := info.ObjectOf(a1x.Lhs[0].(*ast.Ident))
+				if be, ok := ast.Unparen(as.Rhs[0]).(*ast.BinaryExpr); ok && be.Op == token.ADD && ((w.is(be.X, w.idx) && w.is(be.Y, skx)) || (w.is(be.X, skx) && w.is(be.Y, w.idx))) {
+					endObj = info.ObjectOf(as.Lhs[0].(*ast.Ident))
+					b = append(append([]ast.Stmt{}, b[:3]...), b[4:]...)
+				}
+			}
+		}
+	}
 	if len(b) != 7 {
-		return bad("default arm has %d statements, expected: rewind, Skip, three guards, conditional append, advance", len(b))
+		return bad("default arm has %d statements, expected: rewind, Skip, three guards, conditional append, advance", len(cc.Body))
 	}
 	a0, ok := b[0].(*ast.AssignStmt)
 	if !ok || a0.Tok != token.ASSIGN || !w.is(a0.Lhs[0], w.idx) || !w.is(a0.Rhs[0], w.pre) {
@@ -1974,13 +2178,29 @@ func (w *decWalker) unknownArm(cc *ast.CaseClause) *unkSummary {
 	if !ok || !w.isErrRet(g0.Body) || types.ExprString(g0.Cond) != errV.Name()+" != nil" {
 		return bad("error of runtime.Skip is not returned")
 	}
-	if !w.skipGuards(b[3], b[4], sk, w.lVar) {
+	if !w.skipGuardsAt(b[3], b[4], sk, w.lVar, w.idx, endObj) {
 		return bad("default arm lacks the guards `if skippy < 0 || iNdEx+skippy < 0 { return error }` and `if iNdEx+skippy > l { return error }`: the slice dAtA[iNdEx:iNdEx+skippy] can be out of range")
 	}
 	// if !options.DiscardUnknown { x.unknownFields = append(x.unknownFields, dAtA[idx:idx+skippy]...) }
 	cnd, ok := b[5].(*ast.IfStmt)
-	if !ok || cnd.Else != nil || len(cnd.Body.List) != 1 {
+	if !ok || cnd.Else != nil || len(cnd.Body.List) < 1 || len(cnd.Body.List) > 2 {
 		return bad("default arm does not keep the record under `if !options.DiscardUnknown`")
+	}
+	// optional local for the record: rec := dAtA[iNdEx:end]
+	var recObj types.Object
+	var recSlice *ast.SliceExpr
+	keep := cnd.Body.List
+	if len(keep) == 2 {
+		ra, ok := keep[0].(*ast.AssignStmt)
+		if !ok || ra.Tok != token.DEFINE || len(ra.Lhs) != 1 || len(ra.Rhs) != 1 {
+			return bad("default arm: statements under `if !options.DiscardUnknown`")
+		}
+		recSlice, _ = ast.Unparen(ra.Rhs[0]).(*ast.SliceExpr)
+		if recSlice == nil {
+			return bad("default arm: statements under `if !options.DiscardUnknown`")
+		}
+		recObj = info.ObjectOf(ra.Lhs[0].(*ast.Ident))
+		keep = keep[1:]
 	}
 	ue, ok := ast.Unparen(cnd.Cond).(*ast.UnaryExpr)
 	if !ok || ue.Op != token.NOT {
@@ -1990,7 +2210,7 @@ func (w *decWalker) unknownArm(cc *ast.CaseClause) *unkSummary {
 	if !ok || sel.Sel.Name != "DiscardUnknown" || !w.is(sel.X, w.opts) {
 		return bad("unknown record is kept under condition %s, expected !options.DiscardUnknown", nodeStr(cnd.Cond))
 	}
-	as, ok := cnd.Body.List[0].(*ast.AssignStmt)
+	as, ok := keep[0].(*ast.AssignStmt)
 	if !ok || as.Tok != token.ASSIGN {
 		return bad("default arm: append form")
 	}
@@ -2009,15 +2229,25 @@ func (w *decWalker) unknownArm(cc *ast.CaseClause) *unkSummary {
 		return bad("append target is not x.unknownFields (arrival order would be lost)")
 	}
 	rs, ok := ast.Unparen(ap.Args[1]).(*ast.SliceExpr)
-	if !ok || !w.is(rs.X, w.buf) || !w.is(rs.Low, w.idx) {
+	if !ok && recObj != nil && w.is(ap.Args[1], recObj) {
+		rs, ok = recSlice, true
+	}
+	if !ok || !w.is(rs.X, w.buf) || !w.is(rs.Low, w.idx) || rs.Max != nil {
 		return bad("appended bytes do not start at the record start")
 	}
-	hb, ok := ast.Unparen(rs.High).(*ast.BinaryExpr)
-	if !ok || hb.Op != token.ADD || !w.is(hb.X, w.idx) || !w.is(hb.Y, sk) {
+	isEnd := func(x ast.Expr) bool {
+		if endObj != nil && w.is(x, endObj) {
+			return true
+		}
+		hb, ok := ast.Unparen(x).(*ast.BinaryExpr)
+		return ok && hb.Op == token.ADD && ((w.is(hb.X, w.idx) && w.is(hb.Y, sk)) || (w.is(hb.X, sk) && w.is(hb.Y, w.idx)))
+	}
+	if !isEnd(rs.High) {
 		return bad("appended bytes are not exactly dAtA[iNdEx:iNdEx+skippy]")
 	}
 	adv, ok := b[6].(*ast.AssignStmt)
-	if !ok || adv.Tok != token.ADD_ASSIGN || !w.is(adv.Lhs[0], w.idx) || !w.is(adv.Rhs[0], sk) {
+	if !ok || len(adv.Lhs) != 1 || len(adv.Rhs) != 1 || !w.is(adv.Lhs[0], w.idx) ||
+		!((adv.Tok == token.ADD_ASSIGN && w.is(adv.Rhs[0], sk)) || (adv.Tok == token.ASSIGN && isEnd(adv.Rhs[0]))) {
 		return bad("cursor does not advance by exactly the record length")
 	}
 	u.OK = true
@@ -2074,4 +2304,42 @@ func switchToIfChain(sw *ast.SwitchStmt) *ast.IfStmt {
 		tail = head
 	}
 	return head
+}
+
+
+// depthHelper: the callee is a function of the repository's runtime package whose whole body is
+// `if <param>.Depth <= 0 { return <non-nil error> }; return nil`.
+func depthHelper(info *types.Info, call *ast.CallExpr) bool {
+	f, _ := core.CalleeObj(info, call).(*types.Func)
+	if helperCtx == nil || f == nil || f.Pkg() == nil || f.Pkg().Path() != core.RepoModule+"/runtime" {
+		return false
+	}
+	rp := helperCtx.Pkg("runtime")
+	if rp == nil {
+		return false
+	}
+	fd := core.FuncDecls(rp)[f.Name()]
+	if fd == nil || fd.Body == nil || fd.Recv != nil || len(fd.Body.List) != 2 || len(fd.Type.Params.List) != 1 || len(fd.Type.Params.List[0].Names) != 1 {
+		return false
+	}
+	pn := fd.Type.Params.List[0].Names[0].Name
+	is, ok := fd.Body.List[0].(*ast.IfStmt)
+	rs, ok2 := fd.Body.List[1].(*ast.ReturnStmt)
+	if !ok || !ok2 || is.Init != nil || is.Else != nil || len(is.Body.List) != 1 || len(rs.Results) != 1 || types.ExprString(rs.Results[0]) != "nil" {
+		return false
+	}
+	if types.ExprString(is.Cond) != pn+".Depth <= 0" {
+		return false
+	}
+	er, ok := is.Body.List[0].(*ast.ReturnStmt)
+	if !ok || len(er.Results) != 1 {
+		return false
+	}
+	// the error returned is a package-level error variable (never nil)
+	id, ok := ast.Unparen(er.Results[0]).(*ast.Ident)
+	if !ok {
+		return false
+	}
+	v, ok := rp.TypesInfo.Uses[id].(*types.Var)
+	return ok && v.Parent() == rp.Types.Scope() && v.Type().String() == "error"
 }
